@@ -84,6 +84,13 @@ class Unit:
         return f
 
     def key(self):
+        # memoised: the key names the binary that was built; editing a header while a run is in progress must not rename it
+        if getattr(self, '_key', None):
+            return self._key
+        self._key = self._compute_key()
+        return self._key
+
+    def _compute_key(self):
         srcs = [os.path.join(ROOT, self.src)] + [os.path.join(ROOT, s) for s in self.extra_srcs] + engine_headers()
         srcs += [os.path.join(ROOT, SHARED[n][0]) for n in self.link if n in SHARED]
         srcs += [os.path.join(ROOT, d) for d in self.deps]
@@ -102,6 +109,7 @@ class Unit:
         v.defs = [d for d in self.defs if not d.startswith('VF_FN_ALL')]
         v.variant_defs = list(defs)
         v.label = label
+        v._key = None
         v.bisect = None
         v.shards = 1
         return v
